@@ -15,6 +15,14 @@ CLAIMS = {
          "Proof over listed obligations: ValidUntil::valid is exactly `deadline > now` and the constructors exactly `clock sample + offset` (complete decision tables of loop-free functions); each of the six retain predicates over peers / pending offers returns exactly valid(now) of the retained element, `now` is chased through all callers to one seconds_elapsed() sample of the tracker's single ServerStartInstant, and every non-stopped announce path stores a deadline whose origin is ValidUntil::new(start, max_peer_age) (max_offer_age for offers).",
          "Trusted: retain semantics of indexmap/arrayvec, std Instant; not decided: when the timer fires (cadence of cleaning passes).",
          "DESIGN.md section 2, C10"),
+ "C05": ("normalised decision table of the validator + dataflow origin of id bytes, MAC input and key",
+         "Proof over listed obligations: the complete decision table of connection_id_valid (two paths) equals `MAC(issue, source ip) matches in constant time AND issue + max_age > now AND issue <= now + 60` with both additions in u64 after widening from u32; id construction, MAC input order (issue time then ip octets, never the port), key provenance (32 getrandom bytes, error propagated, one instance per process, never reassigned) and the clock writer are extracted as expression trees.",
+         "Trusted: BLAKE3 keyed hash (2^-32 guessing chance is the statement's own caveat), constant_time_eq, getrandom; not decided: wall-clock cadence of update_elapsed.",
+         "DESIGN.md section 2, C05"),
+ "C11": ("path-sensitive guard analysis (allows() true edge before every swarm sink), decision tables, error-propagation discipline of the reload parser",
+         "Proof over listed obligations: on every enumerated path of the four announce handlers each call that reaches swarm state or per-connection announce bookkeeping is preceded by the true edge of allows(configured mode, this request's info hash) and the false edge builds the error reply; allows() tables; the three torrent retain closures decide on allows() first; ArcSwap::store receives only the Ok payload of create_from_path, in which every fallible step is `?`-propagated; the SIGUSR1 handlers reload the shared list.",
+         "Trusted: arc_swap, hashbrown, hex, str::trim. Paths are enumerated with loops unrolled once; feasibility is not solved.",
+         "DESIGN.md section 2, C11"),
 }
 
 PENDING_REASON = "check under construction in this build phase (static rules designed in DESIGN.md section 2); not claimed until its rule set is validated both ways"
